@@ -130,7 +130,7 @@ def generate(ctx):
         method = str(rng.choice(['cycles', 'cycles', 'amp']))
         u = rng.random()
         if method == 'cycles':
-            th = None if u < 0.15 else {('monotonicity' if rng.random() < 0.5 else 'monotonicity_threshold'): float(rng.choice([0.4, 0.7])),
+            th = None if u < 0.15 else {('monotonicity' if rng.random() < 0.5 else 'monotonicity_threshold'): float(rng.choice([0.4, 0.7, 1.0])),      # (1.0: no cycle qualifies - a table without any burst)
                                          ('amp_consistency' if rng.random() < 0.5 else 'amp_consistency_threshold'): float(rng.choice([0.3, 0.6])),
                                          'period_consistency_threshold': 0.5, 'amp_fraction_threshold': float(rng.choice([0.0, 0.2])), 'min_n_cycles': int(rng.choice([1, 2, 3]))}
         else:
